@@ -307,7 +307,7 @@ pub fn gen(seed: u64, n_cases: usize, out: &str, tier: &str) {
         let s = gen_schema(&mut g);
         writeln!(w, "case id={} e=c05 ns={}", id, g.chance(1, 2) as u8).unwrap();
         for (i, e) in s.ents.iter().enumerate() {
-            writeln!(w, "ent k={}", i).unwrap();
+            writeln!(w, "ent k={} opt={}", i, ["none", "none", "nofts", "empty"][g.below(4)]).unwrap();
             for (j, f) in e.iter().enumerate() {
                 let mut l = format!("fld e={} k={} ty={} mod={}", i, j, f.ty, f.md);
                 if f.ty == 'R' || f.ty == 'A' {
